@@ -50,13 +50,47 @@ Proof.
   repeat (destruct Hs as [<-|Hs]; [eexists; reflexivity|]). contradiction.
 Qed.
 
-Lemma inet_line_ok le v6 ty lk filt s :
+(* an IPv6 line whose address would have to be formatted is dropped when inet_ntop lacks IPv6 *)
+Definition hidden6 (o : ipv6_oracle) (v6 : bool) (s : isock) : bool :=
+  v6 && negb (o_ntop6 o) && negb (ports_zero s).
+(* no ValueError from the IPv6 branch: inet_ntop works, or the table is IPv4, or supports_ipv6() is False *)
+Definition no_v6_error (o : ipv6_oracle) (v6 : bool) : Prop :=
+  o_ntop6 o = true \/ v6 = false \/ o_supported o = false.
+
+Lemma decode_two le o s (K : addr -> addr -> row) :
+  wf_ip (s_lip s) = true -> wf_ip (s_rip s) = true -> is_v6 (s_rip s) = is_v6 (s_lip s) ->
+  wf_port (s_lport s) = true -> wf_port (s_rport s) = true ->
+  no_v6_error o (is_v6 (s_lip s)) ->
+  (do la <- decode_address le o (k_addr le (s_lip s) (s_lport s)) (if is_v6 (s_lip s) then AF_INET6 else AF_INET);
+   match la with
+   | DUnsupported => Val None
+   | DAddr la =>
+     do ra <- decode_address le o (k_addr le (s_rip s) (s_rport s)) (if is_v6 (s_lip s) then AF_INET6 else AF_INET);
+     match ra with
+     | DUnsupported => Val None
+     | DAddr ra => Val (Some (K la ra))
+     end
+   end)
+  = Val (if hidden6 o (is_v6 (s_lip s)) s then None
+         else Some (K (spec_addr (s_lip s) (s_lport s)) (spec_addr (s_rip s) (s_rport s)))).
+Proof.
+  intros Hlip Hrip Hr6 Hlp Hrp Ho.
+  rewrite addr_roundtrip by assumption.
+  rewrite <- Hr6. rewrite addr_roundtrip by assumption.
+  unfold addr_res, hidden6, ports_zero, spec_addr, no_v6_error in *. rewrite ?Hr6 in *.
+  destruct (s_lport s =? 0), (s_rport s =? 0), (is_v6 (s_lip s)), (o_ntop6 o), (o_supported o);
+    cbn [andb negb obind]; try reflexivity;
+    destruct Ho as [Ho|[Ho|Ho]]; discriminate.
+Qed.
+
+Lemma inet_line_ok le o v6 ty lk filt s :
   lk_ok lk -> wf_isock v6 s = true ->
   (ty = 1 /\ tcp_state_ok s = true) \/ ty = 2 ->
-  inet_line le (if v6 then AF_INET6 else AF_INET) ty lk filt (k_iline le s)
-  = Val (ref_inet_row lk filt (if v6 then AF_INET6 else AF_INET) ty s).
+  no_v6_error o v6 ->
+  inet_line le o (if v6 then AF_INET6 else AF_INET) ty lk filt (k_iline le s)
+  = Val (if hidden6 o v6 s then None else ref_inet_row lk filt (if v6 then AF_INET6 else AF_INET) ty s).
 Proof.
-  intros Hlk Hwf Hty.
+  intros Hlk Hwf Hty Ho.
   apply wf_isock_parts in Hwf as (Hsl & Hlip & Hrip & Hl6 & Hr6 & Hlp & Hrp & Hst & Hmid & Hmidok & Hino & Htail).
   subst v6.
   unfold inet_line, k_iline. rewrite split_ws_repeat.
@@ -65,52 +99,54 @@ Proof.
   destruct (split_ws_inode_tail _ _ Hino Htail) as [X ->].
   destruct (s_mid s) as [|m0 [|m1 [|m2 [|m3 [|m4 [|m5 mid']]]]]]; try discriminate.
   cbn [app firstn].
+  assert (Hs : (if ty =? SOCK_STREAM then of_option KeyError (assoc (hexw 2 (s_st s)) gen_tcp_statuses)
+                else Val CONN_NONE) = Val (status_of ty s)).
+  { unfold status_of. destruct Hty as [[-> Hok]| ->].
+    - change (1 =? SOCK_STREAM) with true. change (1 =? 1) with true. cbv iota.
+      unfold tcp_state_ok in Hok. rewrite tcp_status_table by lia.
+      destruct (tcp_state_some (s_st s)) as [n ->]; [lia|reflexivity].
+    - reflexivity. }
   unfold ref_inet_row, owner_of.
   destruct (lk (s_inode s)) as [[|[p f] l]|] eqn:E.
   - exfalso. exact (Hlk _ E).
-  - cbn [obind fst snd]. destruct (filt_skip filt (Some p)); [reflexivity|].
-    assert (Hs : (if ty =? SOCK_STREAM then of_option KeyError (assoc (hexw 2 (s_st s)) gen_tcp_statuses)
-                  else Val CONN_NONE) = Val (status_of ty s)).
-    { unfold status_of. destruct Hty as [[-> Hok]| ->].
-      - change (1 =? SOCK_STREAM) with true. change (1 =? 1) with true. cbv iota.
-        unfold tcp_state_ok in Hok. rewrite tcp_status_table by lia.
-        destruct (tcp_state_some (s_st s)) as [n ->]; [lia|reflexivity].
-      - reflexivity. }
-    rewrite Hs. cbn [obind].
-    rewrite addr_roundtrip by assumption. cbn [obind].
-    rewrite <- Hr6. rewrite addr_roundtrip by assumption. cbn [obind].
-    reflexivity.
-  - cbn [obind fst snd]. destruct (filt_skip filt None); [reflexivity|].
-    assert (Hs : (if ty =? SOCK_STREAM then of_option KeyError (assoc (hexw 2 (s_st s)) gen_tcp_statuses)
-                  else Val CONN_NONE) = Val (status_of ty s)).
-    { unfold status_of. destruct Hty as [[-> Hok]| ->].
-      - change (1 =? SOCK_STREAM) with true. change (1 =? 1) with true. cbv iota.
-        unfold tcp_state_ok in Hok. rewrite tcp_status_table by lia.
-        destruct (tcp_state_some (s_st s)) as [n ->]; [lia|reflexivity].
-      - reflexivity. }
-    rewrite Hs. cbn [obind].
-    rewrite addr_roundtrip by assumption. cbn [obind].
-    rewrite <- Hr6. rewrite addr_roundtrip by assumption. cbn [obind].
-    reflexivity.
+  - cbn [obind fst snd]. destruct (filt_skip filt (Some p)).
+    + now destruct (hidden6 o (is_v6 (s_lip s)) s).
+    + rewrite Hs. cbn [obind].
+      exact (decode_two le o s (fun la ra => {| r_fd := f; r_family := if is_v6 (s_lip s) then AF_INET6 else AF_INET;
+                                               r_type := ty; r_laddr := la; r_raddr := ra;
+                                               r_status := status_of ty s; r_pid := Some p |})
+                        Hlip Hrip Hr6 Hlp Hrp Ho).
+  - cbn [obind fst snd]. destruct (filt_skip filt None).
+    + now destruct (hidden6 o (is_v6 (s_lip s)) s).
+    + rewrite Hs. cbn [obind].
+      exact (decode_two le o s (fun la ra => {| r_fd := -1; r_family := if is_v6 (s_lip s) then AF_INET6 else AF_INET;
+                                               r_type := ty; r_laddr := la; r_raddr := ra;
+                                               r_status := status_of ty s; r_pid := None |})
+                        Hlip Hrip Hr6 Hlp Hrp Ho).
 Qed.
 
-Lemma inet_lines_ok le v6 ty lk filt socks :
+Definition shown (o : ipv6_oracle) (v6 : bool) (socks : list isock) : list isock :=
+  filter (fun s => negb (hidden6 o v6 s)) socks.
+
+Lemma inet_lines_ok le o v6 ty lk filt socks :
   lk_ok lk -> forallb (wf_isock v6) socks = true ->
   (ty = 1 /\ forallb tcp_state_ok socks = true) \/ ty = 2 ->
-  inet_lines le (if v6 then AF_INET6 else AF_INET) ty lk filt (map (k_iline le) socks)
-  = Val (flat_map (fun s => olist (ref_inet_row lk filt (if v6 then AF_INET6 else AF_INET) ty s)) socks).
+  no_v6_error o v6 ->
+  inet_lines le o (if v6 then AF_INET6 else AF_INET) ty lk filt (map (k_iline le) socks)
+  = Val (flat_map (fun s => olist (ref_inet_row lk filt (if v6 then AF_INET6 else AF_INET) ty s)) (shown o v6 socks)).
 Proof.
-  intros Hlk. induction socks as [|s r IH]; intros Hwf Hty; [reflexivity|].
+  intros Hlk. induction socks as [|s r IH]; intros Hwf Hty Ho; [reflexivity|].
   cbn [forallb] in Hwf. apply andb_true_iff in Hwf as [Hs Hr].
-  cbn [map inet_lines flat_map].
-  rewrite (inet_line_ok le v6 ty lk filt s Hlk Hs).
+  cbn [map inet_lines].
+  rewrite (inet_line_ok le o v6 ty lk filt s Hlk Hs); [| |exact Ho].
   2:{ destruct Hty as [[-> H]| ->]; [left|right; reflexivity].
       cbn [forallb] in H. apply andb_true_iff in H as [H1 _]. auto. }
-  cbn [obind]. rewrite IH.
-  2: exact Hr.
+  cbn [obind]. rewrite IH; [|exact Hr| |exact Ho].
   2:{ destruct Hty as [[-> H]| ->]; [left|right; reflexivity].
       cbn [forallb] in H. apply andb_true_iff in H as [_ H2]. auto. }
-  cbn [obind]. destruct (ref_inet_row _ _ _ _ s); reflexivity.
+  cbn [obind]. unfold shown. cbn [filter].
+  destruct (hidden6 o v6 s); cbn [negb flat_map]; [reflexivity|].
+  destruct (ref_inet_row _ _ _ _ s); reflexivity.
 Qed.
 
 (* ------------------------------------------------------------ files as lines *)
@@ -148,14 +184,15 @@ Proof.
     + rewrite forallb_app. cbn [forallb]. rewrite Hsl, !k_addr_tok, hexw_tok by discriminate. exact Hmidok.
 Qed.
 
-Lemma process_inet_ok le v6 ty lk filt hdr socks is6 :
+Lemma process_inet_ok le o v6 ty lk filt hdr socks is6 :
   lk_ok lk -> contains 10 hdr = false -> forallb (wf_isock v6) socks = true ->
   (ty = 1 /\ forallb tcp_state_ok socks = true) \/ ty = 2 ->
+  no_v6_error o v6 ->
   text_safe (k_ifile le hdr socks) = true ->
-  process_inet le (Some (k_ifile le hdr socks)) is6 (if v6 then AF_INET6 else AF_INET) ty lk filt
-  = Val (flat_map (fun s => olist (ref_inet_row lk filt (if v6 then AF_INET6 else AF_INET) ty s)) socks).
+  process_inet le o (Some (k_ifile le hdr socks)) is6 (if v6 then AF_INET6 else AF_INET) ty lk filt
+  = Val (flat_map (fun s => olist (ref_inet_row lk filt (if v6 then AF_INET6 else AF_INET) ty s)) (shown o v6 socks)).
 Proof.
-  intros Hlk Hh Hwf Hty Hsafe. unfold process_inet. rewrite Hsafe.
+  intros Hlk Hh Hwf Hty Ho Hsafe. unfold process_inet. rewrite Hsafe.
   unfold k_ifile. rewrite lines_keep_line by exact Hh.
   rewrite (lines_keep_lines (k_iline le) (iline_body le)).
   - cbn [tl]. now apply inet_lines_ok.
@@ -315,4 +352,131 @@ Proof.
   rewrite (lines_keep_lines k_uline uline_body).
   - cbn [tl]. now apply unix_lines_ok.
   - intros u Hu. rewrite forallb_forall in Hwf. apply uline_is_line. now apply Hwf.
+Qed.
+
+(* ------------------------------------------------------------ malformed lines: what reaches which branch *)
+Lemma decode_address_exc le o a fam e : decode_address le o a fam = Exc e -> e = ValueError.
+Proof.
+  unfold decode_address. destruct (split_on 58 a) as [|ip [|port [|x r]]]; try congruence.
+  destruct (parse_hex port) as [p|]; cbn [of_option obind]; [|congruence].
+  destruct (p =? 0); [congruence|].
+  destruct (b16decode ip) as [raw|]; cbn [of_option obind]; [|congruence].
+  destruct (fam =? AF_INET).
+  - destruct (length (if le then rev raw else raw) =? 4)%nat; congruence.
+  - destruct (unpack_le4 raw); [|congruence].
+    destruct (o_ntop6 o); [congruence|]. destruct (o_supported o); congruence.
+Qed.
+
+(* process_inet: "error while parsing ...; malformed line" (RuntimeError) is raised exactly for a line with
+   fewer than 10 white-space separated fields (a blank line included), whatever the fields hold *)
+Theorem inet_line_runtime_error le o fam ty lk filt line :
+  inet_line le o fam ty lk filt line = Exc RuntimeError <-> (length (split_ws line) < 10)%nat.
+Proof.
+  unfold inet_line. split.
+  - destruct (split_ws line) as [|t0 [|t1 [|t2 [|t3 [|t4 [|t5 [|t6 [|t7 [|t8 [|t9 r]]]]]]]]]];
+      cbn [length]; try lia.
+    cbn [firstn]. intros H. exfalso.
+    destruct (lk t9) as [[|[p f] l]|]; cbn [obind] in H; try discriminate;
+      (destruct (filt_skip filt _); [discriminate|]);
+      (destruct (ty =? SOCK_STREAM);
+       [destruct (assoc t3 gen_tcp_statuses); cbn [of_option obind] in H; [|discriminate]|cbn [obind] in H]);
+      (destruct (decode_address le o t1 fam) as [[la|]| |] eqn:E1; cbn [obind] in H; try discriminate;
+       [destruct (decode_address le o t2 fam) as [[ra|]| |] eqn:E2; cbn [obind] in H; try discriminate;
+        apply decode_address_exc in E2; congruence
+       |apply decode_address_exc in E1; congruence]).
+  - intros H.
+    destruct (split_ws line) as [|t0 [|t1 [|t2 [|t3 [|t4 [|t5 [|t6 [|t7 [|t8 [|t9 r]]]]]]]]]];
+      cbn [length] in H; try reflexivity. lia.
+Qed.
+
+(* process_unix: a line with fewer than 7 fields is skipped when it holds no blank (issue 766: the tail of a
+   socket name that contained a newline) and raises RuntimeError when it holds one; nothing else does *)
+Theorem unix_line_short v fam lk filt line :
+  (length (split_ws line) < 7)%nat ->
+  unix_line v fam lk filt line = if contains 32 line then Exc RuntimeError else Val [].
+Proof.
+  intros H. unfold unix_line.
+  destruct (split_ws line) as [|t0 [|t1 [|t2 [|t3 [|t4 [|t5 [|t6 r]]]]]]]; cbn [length] in H; try reflexivity. lia.
+Qed.
+
+Theorem unix_line_runtime_error v fam lk filt line :
+  unix_line v fam lk filt line = Exc RuntimeError
+  <-> (length (split_ws line) < 7)%nat /\ contains 32 line = true.
+Proof.
+  split.
+  - intros H. destruct (Nat.lt_ge_cases (length (split_ws line)) 7) as [Hl|Hl].
+    + split; [exact Hl|]. rewrite unix_line_short in H by exact Hl. destruct (contains 32 line); congruence.
+    + exfalso. unfold unix_line in H.
+      destruct (split_ws line) as [|t0 [|t1 [|t2 [|t3 [|t4 [|t5 [|t6 r]]]]]]]; cbn [length] in Hl; try lia.
+      cbn [firstn] in H.
+      destruct (filter _ _) as [|x sel]; [discriminate|].
+      destruct (py_int t4) as [t| |] eqn:E; cbn [obind] in H; try discriminate.
+      unfold py_int in E. destruct (parse_int t4); cbn in E; congruence.
+  - intros [Hl Hc]. rewrite unix_line_short by exact Hl. now rewrite Hc.
+Qed.
+
+(* a /proc/net/unix file with such junk lines between the socket records: the rows of the records *)
+Lemma junk_line_skipped v fam lk filt j :
+  junk_ok j = true -> unix_line v fam lk filt (j ++ [10]) = Val [].
+Proof.
+  unfold junk_ok. intros H. apply andb_true_iff in H as [H Hl]. apply andb_true_iff in H as [H32 H10].
+  apply negb_true_iff in H32. apply Nat.ltb_lt in Hl.
+  rewrite unix_line_short by exact Hl. rewrite contains_app, H32. reflexivity.
+Qed.
+
+
+Lemma unix_lines_items_ok v fam lk filt items :
+  forallb uitem_ok items = true ->
+  v_exact v = true \/ forallb (fun u => negb (path_lead_ws u)) (socks_of items) = true ->
+  unix_lines v fam lk filt (map k_uitem items) = Val (flat_map (ref_unix_rows fam lk filt) (socks_of items)).
+Proof.
+  induction items as [|i r IH]; intros Hwf Hl; [reflexivity|].
+  cbn [forallb] in Hwf. apply andb_true_iff in Hwf as [Hi Hr].
+  cbn [map unix_lines]. destruct i as [u|j]; cbn [k_uitem uitem_ok socks_of flat_map app] in *.
+  - rewrite unix_line_ok.
+    + cbn [obind]. fold (socks_of r). rewrite IH; [reflexivity|exact Hr|].
+      destruct Hl as [Hl|Hl]; [now left|right].
+      cbn [forallb] in Hl. now apply andb_true_iff in Hl as [_ Hl].
+    + exact Hi.
+    + destruct Hl as [Hl|Hl]; [now left|right].
+      cbn [forallb] in Hl. apply andb_true_iff in Hl as [Hl _]. now apply negb_true_iff in Hl.
+  - rewrite junk_line_skipped by exact Hi. cbn [obind]. fold (socks_of r). rewrite IH by assumption. reflexivity.
+Qed.
+
+Theorem process_unix_items_ok v fam lk filt items :
+  forallb uitem_ok items = true ->
+  v_exact v = true \/ forallb (fun u => negb (path_lead_ws u)) (socks_of items) = true ->
+  text_safe (k_ufile_items items) = true ->
+  process_unix v (Some (k_ufile_items items)) fam lk filt
+  = Val (flat_map (ref_unix_rows fam lk filt) (socks_of items)).
+Proof.
+  intros Hwf Hl Hsafe. unfold process_unix. rewrite Hsafe.
+  unfold k_ufile_items. rewrite lines_keep_line by reflexivity.
+  rewrite (lines_keep_lines k_uitem (fun i => match i with USock u => uline_body u | UJunk j => j end)).
+  - cbn [tl]. now apply unix_lines_items_ok.
+  - intros i Hi. rewrite forallb_forall in Hwf. specialize (Hwf i Hi). destruct i as [u|j]; cbn [k_uitem uitem_ok] in *.
+    + now apply uline_is_line.
+    + split; [reflexivity|]. unfold junk_ok in Hwf. apply andb_true_iff in Hwf as [Hwf _].
+      apply andb_true_iff in Hwf as [_ H10]. now apply negb_true_iff in H10.
+Qed.
+
+(* ... i.e. the junk lines change nothing: the answer is that of the file holding only the records *)
+Lemma socks_of_wf items : forallb uitem_ok items = true -> forallb wf_usock (socks_of items) = true.
+Proof.
+  induction items as [|i r IH]; [reflexivity|]. cbn [forallb]. intros H. apply andb_true_iff in H as [Hi Hr].
+  destruct i as [u|j]; cbn [socks_of flat_map app uitem_ok] in *.
+  - fold (socks_of r). cbn [forallb]. now rewrite Hi, IH.
+  - fold (socks_of r). now apply IH.
+Qed.
+
+Theorem unix_junk_lines_change_nothing v fam lk filt items :
+  forallb uitem_ok items = true ->
+  v_exact v = true \/ forallb (fun u => negb (path_lead_ws u)) (socks_of items) = true ->
+  text_safe (k_ufile_items items) = true -> text_safe (k_ufile (socks_of items)) = true ->
+  exists rows, process_unix v (Some (k_ufile_items items)) fam lk filt = Val rows
+               /\ process_unix v (Some (k_ufile (socks_of items))) fam lk filt = Val rows.
+Proof.
+  intros Hwf Hl H1 H2. eexists. split.
+  - now apply process_unix_items_ok.
+  - apply process_unix_ok; [now apply socks_of_wf|exact Hl|exact H2].
 Qed.
